@@ -34,6 +34,9 @@ def _writeback(ex, st, recv, newv):
 
 def call(ex, st, base, attr, recv, args, kwargs, node):
     eng = ex.eng
+    if kwargs and attr not in ("decode", "to_bytes", "replace", "encode"):
+        # only these methods' models look at their keyword arguments
+        raise _U(f"keyword arguments to the method {attr}")
     base = ex.narrow(st, base)
     ty = base.ty
     if ty in ("py", "obj") and attr == "toordinal" and not args:
